@@ -120,8 +120,20 @@ print(json.dumps({"violates": len(outs) > 1, "witness_block_for_x_at_entry_by_po
 class Scanner(ast.NodeVisitor):
     """Finds uses of unordered collections; a light intra-procedural type inference."""
 
-    def __init__(self, file):
+    def __init__(self, file, tree=None):
         self.file, self.sites, self.fn, self.setvars = file, [], [], [set()]
+        self.setattrs = set()
+        for n in ast.walk(tree) if tree is not None else ():
+            if isinstance(n, ast.ClassDef):
+                for st in n.body:
+                    if isinstance(st, ast.AnnAssign) and isinstance(st.target, ast.Name) and ast.unparse(st.annotation).startswith(("set[", "frozenset[", "Set[")):
+                        self.setattrs.add(st.target.id)
+            if isinstance(n, (ast.Assign, ast.AnnAssign)):
+                tg = n.targets[0] if isinstance(n, ast.Assign) else n.target
+                v = n.value
+                if isinstance(tg, ast.Attribute) and isinstance(tg.value, ast.Name) and tg.value.id == "self" and v is not None and (
+                        isinstance(v, (ast.Set, ast.SetComp)) or (isinstance(v, ast.Call) and ast.unparse(v.func) in ("set", "frozenset"))):
+                    self.setattrs.add(tg.attr)
 
     def qual(self):
         return ".".join(self.fn) or "<module>"
@@ -140,6 +152,8 @@ class Scanner(ast.NodeVisitor):
             return ".keys()" in s or self.is_set_expr(n.left) or self.is_set_expr(n.right)
         if isinstance(n, ast.Name):
             return n.id in self.setvars[-1]
+        if isinstance(n, ast.Attribute) and isinstance(n.value, ast.Name) and n.value.id == "self":
+            return n.attr in self.setattrs            # an attribute declared / initialised as a set
         if isinstance(n, ast.NamedExpr):
             return self.is_set_expr(n.value)
         return False
@@ -210,7 +224,7 @@ def run(chk):
     for rel in FILES:
         path = os.path.join(chk.repo, PKG, rel)
         tree = ast.parse(open(path).read())
-        sc = Scanner(rel)
+        sc = Scanner(rel, tree)
         sc.visit(tree)
         found += sc.sites
         for n in ast.walk(tree):
@@ -224,6 +238,15 @@ def run(chk):
         chk.record(f"site:{site[0]}:{site[1]}:{site[2]}:`{site[3]}`:order-independence-discharged", why is not None,
                    why or "unclassified unordered use: no discharge registered for this site", func=f"guppylang_internals.{site[0][:-3].replace('/', '.')}:{site[1]}",
                    backend="site table").site = site
+    # the compiler's worklist of definitions to lower: an insertion-ordered dict popped with popitem() (LIFO)
+    ctree = ast.parse(open(os.path.join(chk.repo, PKG, "compiler/core.py")).read())
+    wl_ann = [ast.unparse(st.annotation) for c in ast.walk(ctree) if isinstance(c, ast.ClassDef) and c.name == "CompilerContext" for st in c.body
+              if isinstance(st, ast.AnnAssign) and isinstance(st.target, ast.Name) and st.target.id == "worklist"]
+    wl_pops = [ast.unparse(n) for n in ast.walk(ctree) if isinstance(n, ast.Call) and isinstance(n.func, ast.Attribute) and isinstance(n.func.value, ast.Attribute) and n.func.value.attr == "worklist"
+               and n.func.attr in ("pop", "popitem", "popleft")]
+    chk.record("CompilerContext.worklist:insertion-ordered-dict-popped-with-popitem()(the-order-in-which-definitions-are-lowered-is-the-order-of-discovery)",
+               len(wl_ann) == 1 and wl_ann[0].startswith("dict[") and wl_pops == ["self.worklist.popitem()"], f"annotation {wl_ann}, pops {wl_pops}",
+               func="guppylang_internals.compiler.core:CompilerContext.compile", backend="structural")
     for site in SITES:
         if site not in found:
             chk.notes.append(f"registered site no longer present in the source: {site}")
